@@ -478,6 +478,8 @@ def ws_read_loop(A, fl, rule, closed_rule=None):
             v = PV(p)
             forms = [int_ordering(v.ev[i].expr, v.ev[i].pol, symmap) for i in v.guards()]
             forms = [f for f in forms if f is not None and 'L' in f[0]]
+            if p.outcome == 'raise' and not (v.ev and v.ev[-1].kind == 'raise'):
+                continue    # the driver's own exception (closed socket), not the gate
             if p.outcome == 'raise':
                 A.check(forms == [({'L': 1, 'M': -1}, -1)] and p.cls == 'ValueError',
                         rule + '.frame-gate', '%s: a frame is refused exactly when it is longer '
